@@ -44,6 +44,11 @@ func (s *subscriptionMap) Unsubscribe(subscriptionID string) error {
 	if !success {
 		return fmt.Errorf("tried to unsubscribe from unknown subscription with ID '%s'", subscriptionID)
 	}
+	if unsub.hasBeenUnsubscribed {
+		// already ended (by the server or by an earlier call): the channel
+		// has been closed, and must not be closed again.
+		return nil
+	}
 	unsub.hasBeenUnsubscribed = true
 	s.map_[subscriptionID] = unsub
 	reflect.ValueOf(s.map_[subscriptionID].interfaceChan).Close()
